@@ -2,8 +2,8 @@
 # tools/applypatch.sh <patch-base-name-without-ext>   — apply /verif/patches/<name>.diff to /repo and commit with <name>.msg
 n="$1"
 cd /repo || exit 1
-git apply --check "/verif/patches/$n.diff" || { echo "does not apply: $n"; exit 1; }
-git apply "/verif/patches/$n.diff" || exit 1
+git apply --check --exclude='*_test.go' "/verif/patches/$n.diff" || { echo "does not apply: $n"; exit 1; }
+git apply --exclude='*_test.go' "/verif/patches/$n.diff" || exit 1
 GOFLAGS=-mod=mod go build ./... || { echo "build failed"; git checkout -- .; git clean -fdq; exit 1; }
 GOFLAGS=-mod=mod go build -tags verif ./... || { echo "verif build failed"; git checkout -- .; git clean -fdq; exit 1; }
 git add -A && git commit -q -F "/verif/patches/$n.msg" && git log --oneline | head -1
